@@ -1450,6 +1450,9 @@ def r01_8(ctx):
         "two chains crossing twice, both loops selected": (
             (_CurveP("J0", [P0, X, P1, Y]), _CurveP("J1", [X, Y, Q0])), [(0, 1), (1, 0), (0, 3)],
             [("J0s1", "J0s2", "J1s1", "J1s2"), ("J1s0", "J0s3", "J0s0")]),
+        "two chains crossing twice, the start pieces of one loop listed around those of the other": (
+            (_CurveP("J0", [P0, X, P1, Y]), _CurveP("J1", [X, Y, Q0])), [(0, 1), (1, 0), (0, 2), (0, 3), (1, 1)],
+            [("J0s1", "J0s2", "J1s1", "J1s2"), ("J1s0", "J0s3", "J0s0")]),
         "two lenses: loops of two pieces": (
             (_CurveP("L0", [X, Y]), _CurveP("L1", [X, Y])), [(0, 0), (1, 1)], [("L0s0", "L1s1")]),
         "two lenses, the other pair": (
